@@ -7,6 +7,16 @@ import sys
 import esrv
 
 PROPS_V = "Props/C18.v"
+# functions the hand-written model of this property was written against (normalised source stored under harness/corr/guards/;
+# a difference is reported as broken-correspondence: the theorems then no longer speak about the current source)
+SOURCE_GUARDS = [
+    ("esr/generation/generator.py", "DecoratedNode.to_list"),
+    ("esr/generation/generator.py", "DecoratedNode.__init__"),
+    ("esr/generation/generator.py", "string_to_node"),
+    ("esr/fitting/fit_single.py", "fit_from_string"),
+    ("esr/fitting/fit_single.py", "string_to_aifeyn"),
+]
+
 TRANSLATORS = []
 IMPL = os.path.join(esrv.VERIF, "harness", "corr", "c18_impl.py")
 
